@@ -202,6 +202,8 @@ func (b *built) put(name string, data []byte) error {
 	if !known {
 		mode = 0o600
 	}
+	// remove + create: truncating an existing file is two orders of magnitude slower on ext4
+	os.Remove(p)
 	if err := os.WriteFile(p, data, mode); err != nil {
 		return err
 	}
